@@ -182,3 +182,43 @@ SPECS["C05"] = dict(
              params=dict(quick=dict(servers=3, mounts=1, classes=1, repl2=0, shared=0, symuuid=1)), witnesses=["trash", "pull", "done"]),
     ],
 )
+
+SCHED_H = ["scheduler/stubs.go", "scheduler/runqueue.go", "scheduler/sync.go"]
+WK = "git.arvados.org/arvados.git/lib/dispatchcloud/worker"
+WORKER_STUBS = ["(*%s.worker).startContainer=gosymStartContainer" % WK, "%s.newRemoteRunner=gosymNewRunner" % WK,
+                "(*%s.worker).probeRunning=gosymProbeRunning" % WK, "(*%s.worker).probeBooted=gosymProbeBooted" % WK]
+SPECS["C14"] = dict(
+    level="model_checking",
+    level_text="Inductive decomposition, each obligation one symbolic step of the real code from an arbitrary queue/pool state: runQueue starts only Locked, priority>=1, not-running containers whose previous process is confirmed gone, at most once per pass; sync kills lingering processes and never starts; Pool.StartContainer picks only idle run-enabled workers of the right type; worker bookkeeping keeps each process in exactly one place and Running() reports all of them. The end-to-end claim over stub VMs is not decided.",
+    outside="end-to-end runs against the stub cloud; crunch-run process tables on VMs; SSH executor; dispatcher restart; Queue.Update vs concurrent lock results; more than 2-3 containers x 2 workers per step",
+    assumptions=["stub WorkerPool/ContainerQueue answer nondeterministically within their interface contracts", "worker.startContainer, newRemoteRunner, probeRunning/probeBooted are function-level stubs in the worker-pool harnesses (JSON/SSH code is not interpreted)"],
+    runs=[
+        dict(name="runqueue", pkg="lib/dispatchcloud/scheduler", harness=SCHED_H, entry="GosymH_C14_runqueue",
+             params=dict(quick=dict(containers=2, types=1), thorough=dict(containers=3, types=1)), witnesses=["start-called", "lock-called", "done"]),
+        dict(name="sync", pkg="lib/dispatchcloud/scheduler", harness=SCHED_H, entry="GosymH_C14_sync", replay="engine",
+             params=dict(quick=dict(containers=2), thorough=dict(containers=2)), witnesses=["lingering-killed", "done"]),
+        dict(name="poolstart", pkg="lib/dispatchcloud/worker", harness=["worker/pool.go"], entry="GosymH_C14_poolstart", stubs=WORKER_STUBS, replay="engine",
+             params=dict(quick=dict(workers=2), thorough=dict(workers=3)), witnesses=["started", "refused"]),
+        dict(name="bookkeeping", pkg="lib/dispatchcloud/worker", harness=["worker/pool.go"], entry="GosymH_C14_bookkeeping", stubs=WORKER_STUBS, replay="engine",
+             witnesses=["exit-recorded", "done"]),
+    ],
+)
+SPECS["C15"] = dict(
+    level="other",
+    level_text="The liveness claim (every runnable container eventually finishes, every instance is eventually destroyed) is NOT decided: bounded safety queries cannot decide eventual convergence. Decided instead are its safety-shaped progress obligations: in every state the statement calls stuck, one step of the real code invokes the corrective action (cancel / requeue / forget / kill / drain / shutdown / destroy retry / stale-lock release).",
+    explanation="progress obligations of the liveness property, each decided by bounded symbolic execution of one step of the real code from an arbitrary state; fairness and termination are outside the claim",
+    outside="eventual completion under unbounded fault schedules, fairness, dispatcher restart, rate limiting, remoteRunner.Kill timing loops",
+    assumptions=["clock fixed per step; probe outcomes are nondeterministic stubs; timeouts concrete (idle 1 min, boot/probe 10 min, shutdown 10 s)"],
+    runs=[
+        dict(name="sync", pkg="lib/dispatchcloud/scheduler", harness=SCHED_H, entry="GosymH_C15_sync", replay="engine",
+             params=dict(quick=dict(containers=2)), witnesses=["cancel", "requeue", "forget", "done"]),
+        dict(name="stalelocks", pkg="lib/dispatchcloud/scheduler", harness=SCHED_H, entry="GosymH_C15_stalelocks", replay="engine",
+             params=dict(quick=dict(containers=2), thorough=dict(containers=3)), witnesses=["unlocked", "done"]),
+        dict(name="probe", pkg="lib/dispatchcloud/worker", harness=["worker/pool.go"], entry="GosymH_C15_probe", stubs=WORKER_STUBS, replay="engine",
+             witnesses=["held", "shutdown-unresponsive", "shutdown-broken"]),
+        dict(name="idle", pkg="lib/dispatchcloud/worker", harness=["worker/pool.go"], entry="GosymH_C15_idle", stubs=WORKER_STUBS, replay="engine",
+             witnesses=["shut-down", "kept"]),
+        dict(name="poolsync", pkg="lib/dispatchcloud/worker", harness=["worker/pool.go"], entry="GosymH_C15_poolsync", stubs=WORKER_STUBS, replay="engine",
+             witnesses=["dropped"]),
+    ],
+)
